@@ -41,6 +41,10 @@ EXTRA = {
         "with the same stdlib / openpyxl primitives (never through pdtable) and feeds them to the model",
         "for to='cellgrid' (nothing is parsed) the reported name of a table is the name Table.name reports when the "
         "same grid parses, else the name the first cell spells (text after '**' without one trailing '*')",
+        "fixers: the default (strict) fixer, lenient and custom ParseFixer instances and ParseFixer classes are passed as "
+        "fixer=; every read of a case gets a fresh one, so nothing a fixer remembers between reads can mask or cause a "
+        "difference; nanosecond-precision timestamps next to dates outside the nanosecond range (DESIGN §13.5) are kept "
+        "out of the generated well-formed tables",
         "predicates are total, pure functions of (type, name); the model's filter is their extensional table over "
         "the observed pairs plus a default",
     ],
@@ -108,6 +112,11 @@ def gen_table(rng, native):
     if r < 0.45:
         grid, info = c02.wf_grid(rng, native=native)
         kind = "wf"
+        # nanosecond-precision spellings next to a date outside the nanosecond range in one column make pandas give up
+        # on datetime64 (known limit of the reader model, DESIGN §13.5; C02 skips the same combination): keep the
+        # well-formed tables inside the model's domain by using microsecond precision here
+        grid = [[("2021-03-04 05:06:07.123456" if isinstance(c, str) and c in c02.NS_SPELL else c) for c in r_]
+                for r_ in grid]
     elif r < 0.85:
         grid, info = rc.rand_grid(rng, native=native, malformed=0.6)
         kind = "bad" if info["bad"] else "rand"
